@@ -25,26 +25,27 @@ pub fn run(run: &mut Run) {
     run.min_sigs = 20;
     let seed = run.seed;
     let rc = run.replay_case();
+    let verbose = rc.is_some();
     let n_rnd: u64 = if thorough { 3_000_000 } else { 100_000 };
     let pool = fixed_pool();
     run.parallel(|w, nw, acc| {
         for i in my_cases(rc, STREAM_POOL, pool.len() as u64 * 5, w, nw) {
             guarded(acc, "c07", STREAM_POOL, i, |acc| {
                 let mut r = Rng::derive(seed, STREAM_POOL, i);
-                case::<S4>(&pool[(i / 5) as usize], (i % 5) as usize, &mut r, acc, STREAM_POOL, i);
+                case::<S4>(&pool[(i / 5) as usize], (i % 5) as usize, &mut r, acc, STREAM_POOL, i, verbose);
             });
         }
         for i in my_cases(rc, STREAM_RND, n_rnd, w, nw) {
             guarded(acc, "c07", STREAM_RND, i, |acc| {
                 let mut r = Rng::derive(seed, STREAM_RND, i);
                 let shape = r.usize(6);
-                crate::with_shape!(shape, random_case(&mut r, acc, i));
+                crate::with_shape!(shape, random_case(&mut r, acc, i, verbose));
             });
         }
     });
 }
 
-fn random_case<S: Shape>(r: &mut Rng, acc: &mut Acc, index: u64) {
+fn random_case<S: Shape>(r: &mut Rng, acc: &mut Acc, index: u64, verbose: bool) {
     let mut spec = random_anim::<S>(r);
     // off-grid timing now and then, and merged states with an infinite component
     if r.chance(1, 3) {
@@ -58,12 +59,15 @@ fn random_case<S: Shape>(r: &mut Rng, acc: &mut Acc, index: u64) {
         }
     }
     let st = r.usize(5);
-    case::<S>(&spec, st, r, acc, STREAM_RND, index);
+    case::<S>(&spec, st, r, acc, STREAM_RND, index, verbose);
 }
 
-fn case<S: Shape>(spec: &AnimSpec, st: usize, r: &mut Rng, acc: &mut Acc, stream: u64, index: u64) {
+fn case<S: Shape>(spec: &AnimSpec, st: usize, r: &mut Rng, acc: &mut Acc, stream: u64, index: u64, verbose: bool) {
     let total = if spec.animated(st) { Some(spec.total(st)) } else { None };
-    let on_grid = spec.states[st].iter().all(|t| (t.cycle * 512.0).fract() == 0.0 && (t.delay * 512.0).fract() == 0.0);
+    // exact comparison only when every component's total duration is itself exactly representable in f32
+    let on_grid = spec.states[st].iter().all(|t| {
+        (t.cycle * 512.0).fract() == 0.0 && (t.delay * 512.0).fract() == 0.0 && (t.total().is_infinite() || (t.total() as f32) as f64 == t.total())
+    });
     // pre-history to reach the state through different predecessors
     let pre = r.usize(6);
     let mut ops: Vec<Op> = random_history(r, pre, true);
@@ -131,6 +135,10 @@ fn case<S: Shape>(spec: &AnimSpec, st: usize, r: &mut Rng, acc: &mut Acc, stream
         acc.eval();
         let e = real.is_ended();
         let want = model.is_ended();
+        if verbose {
+            let (t_in, pause) = real.verif_snapshot();
+            println!("  #{k} {:?}: is_ended {e} (model {want}) hook time {:?} pause {:?} | model t {:?} pause {:?} total {:?}", op, t_in, pause.map(|(s, d)| (s.idx(), d)), model.t, model.pause, total);
+        }
         let band = model.ended_in_band() && !on_grid;
         if e != want && !band {
             acc.violation(
